@@ -7,9 +7,9 @@ import (
 	"unicode/utf8"
 )
 
-// toolchainTagChar reports whether the installed go/build/constraint takes the
+// c14ToolchainTagChar reports whether the installed go/build/constraint takes the
 // one-character literal as a tag (rather than replacing it by "ignore").
-func toolchainTagChar(r rune) bool {
+func c14ToolchainTagChar(r rune) bool {
 	s := string(r)
 	x, err := constraint.Parse("// +build " + s)
 	if err != nil {
@@ -19,9 +19,9 @@ func toolchainTagChar(r rune) bool {
 	return ok && t.Tag == s
 }
 
-// runeRanges returns the maximal inclusive ranges of valid (non-surrogate)
+// c14RuneRanges returns the maximal inclusive ranges of valid (non-surrogate)
 // code points satisfying pred.
-func runeRanges(pred func(rune) bool) [][2]int {
+func c14RuneRanges(pred func(rune) bool) [][2]int {
 	var out [][2]int
 	start := -1
 	flush := func(end int) {
@@ -52,7 +52,7 @@ func init() {
 	// a build tag (measured through constraint.Parse, one call per code point),
 	// and which code points strings.Fields treats as separators.
 	genLean["TagChars"] = func(repo string) (string, error) {
-		rs := runeRanges(toolchainTagChar)
+		rs := c14RuneRanges(c14ToolchainTagChar)
 		if len(rs) == 0 {
 			return "", fmt.Errorf("no tag characters measured")
 		}
